@@ -11,7 +11,7 @@ Two printing styles:
 """
 import macrolang as ML
 
-PRIMS = ['bgroup', 'egroup', 'def', 'gdef', 'relax', 'else', 'fi', 'iftrue', 'iffalse', 'ifnum', 'ifcase', 'newcommand', 'renewcommand', 'let', 'ifodd', 'newif']
+PRIMS = ['bgroup', 'egroup', 'def', 'gdef', 'relax', 'else', 'fi', 'iftrue', 'iffalse', 'ifnum', 'ifcase', 'newcommand', 'renewcommand', 'let', 'ifodd', 'newif', 'value', 'stepcounter', 'setcounter', 'addtocounter']
 
 
 # ---- names of Spec/MacroPrint.v -------------------------------------------------------------------
@@ -40,6 +40,10 @@ def fsw(n):
     return 'zs' + zcode(n)
 
 
+def fcnt(c):
+    return 'zc' + zcode(c)
+
+
 # ---- printer ---------------------------------------------------------------------------------------
 
 class Pr:
@@ -57,6 +61,12 @@ class Pr:
     def sw(self, n):
         return fsw(n) if self.style == 'f' else ML.swname(n)
 
+    def cnt(self, c):
+        return fcnt(c) if self.style == 'f' else ML.cntname(c)
+
+    def operand(self, o):
+        return ('\\value{%s}' % self.cnt(o[1])) if o[0] == 'cnt' else ('%d' % o[1])
+
     def nodes(self, ns):
         return ''.join(self.node(n) for n in ns)
 
@@ -71,10 +81,10 @@ class Pr:
         if t[0] == 'odd':
             if self.style != 'f' and len(t) > 2:
                 term = t[2]
-            return '\\ifodd %d%s' % (t[1][1], term)
+            return '\\ifodd %s%s' % (self.operand(t[1]), term)
         if self.style != 'f' and len(t) > 4:
             term = t[4]
-        return '\\ifnum %d%s%d%s' % (t[1][1], t[2], t[3][1], term)
+        return '\\ifnum %s%s%s%s' % (self.operand(t[1]), t[2], self.operand(t[3]), term)
 
     def node(self, n):
         k = n[0]
@@ -119,9 +129,16 @@ class Pr:
                 return s
             if not args:
                 return s + ('{}' if (self.style != 'f' and how.get('empty') == 'braces') else ' ')
-            return s + ''.join('{' + self.nodes(a) + '}' for a in args)
+            sep = how.get('argsep', '') if self.style != 'f' else ''      # blanks in front of braced undelimited arguments
+            return s + ''.join(sep + '{' + self.nodes(a) + '}' for a in args)
         if k == 'let':
             return '\\let\\%s=\\%s ' % (self.mac(n[1]), self.mac(n[2]))
+        if k == 'step':
+            return '\\stepcounter{%s}' % self.cnt(n[1])
+        if k == 'setc':
+            return '\\setcounter{%s}{%d}' % (self.cnt(n[1]), n[2])
+        if k == 'addc':
+            return '\\addtocounter{%s}{%d}' % (self.cnt(n[1]), n[2])
         if k == 'newsw':
             return '\\newif\\if%s ' % self.sw(n[1])
         if k == 'setsw':
@@ -138,7 +155,7 @@ class Pr:
                 s += '\\else ' + self.nodes(n[3])
             return s + '\\fi '
         if k == 'case':
-            s = '\\ifcase %d\\relax ' % n[1][1] + '\\or '.join(self.nodes(b) for b in n[2])
+            s = '\\ifcase %s\\relax ' % self.operand(n[1]) + '\\or '.join(self.nodes(b) for b in n[2])
             if n[3] is not None:
                 s += '\\else ' + self.nodes(n[3])
             return s + '\\fi '
@@ -154,7 +171,7 @@ def to_source(prog, style):
 DELIMS = ['.', ',', ';', ':']
 
 
-def gen_prog(rng, f1_only=False, max_params=3, delims=True, allow_nested=True, newcommands=True, lets=True, switches=True):
+def gen_prog(rng, f1_only=False, max_params=3, delims=True, allow_nested=True, newcommands=True, lets=True, switches=True, counters=True):
     """a program of the fragment; f1_only: no parameters at all (fragment F1 of the theorem); otherwise undelimited
     (and a few delimited) parameters.  Bodies call only lower-numbered macros, so expansion terminates."""
     nmac = rng.randint(1, 4)
@@ -169,6 +186,12 @@ def gen_prog(rng, f1_only=False, max_params=3, delims=True, allow_nested=True, n
         sigs[i] = (np, how)
     gok = {i for i in sigs if rng.random() < 0.4 or sigs[i][1].get('kind') == 'newcommand'}     # ids that may be \\gdef'ed: these are never defined locally inside a group or a body
     nsw = 0 if (f1_only or not switches) else rng.choice([0, 0, 1, 2])
+    ncnt = 0 if (f1_only or not counters) else rng.choice([0, 0, 1, 2])
+
+    def operand():
+        if ncnt and rng.random() < 0.4:
+            return ['cnt', rng.randrange(ncnt)]
+        return ['lit', rng.choice([0, 1, 2, 3, 7, 10, 12, 99, 120]), 'plain']
     w = [0]
     nested = allow_nested and rng.random() < 0.5     # a program uses either literal ## or definitions nested in bodies, never both
     inner_ids = [0]
@@ -192,11 +215,10 @@ def gen_prog(rng, f1_only=False, max_params=3, delims=True, allow_nested=True, n
         if r < 0.6:
             return ['false']
         if r < 0.7:
-            return ['odd', ['lit', rng.choice([0, 1, 2, 3, 7, 10, 12, 99, 120]), 'plain']]
+            return ['odd', operand()]
         if nsw and r < 0.82:
             return ['switch', rng.randrange(nsw)]
-        t = ['num', ['lit', rng.choice([0, 1, 2, 3, 7, 10, 12, 99, 120]), 'plain'], rng.choice('<>='),
-             ['lit', rng.choice([0, 1, 2, 3, 7, 10, 12, 99, 120]), 'plain']]
+        t = ['num', operand(), rng.choice('<>='), operand()]
         return t
 
     def call(ids, depth, params, simple_args):
@@ -215,6 +237,8 @@ def gen_prog(rng, f1_only=False, max_params=3, delims=True, allow_nested=True, n
         opt = None
         if how.get('opt') and rng.random() < 0.5:
             opt = [word() for _ in range(rng.randint(0, 2))]
+        if rng.random() < 0.25:
+            h['argsep'] = rng.choice([' ', ' ', '  '])
         return ['call', i, opt, args, h]
 
     def content(depth, params, ids, n=None, allow_def=True, simple_args=False):
@@ -242,11 +266,15 @@ def gen_prog(rng, f1_only=False, max_params=3, delims=True, allow_nested=True, n
                 out.append(['cond', t, thn,
                             content(depth - 1, params, ids, n=rng.randint(0, 2), allow_def=False, simple_args=simple_args)
                             if rng.random() < 0.5 else None])
+            elif ncnt and r < 0.94 and r >= 0.9:
+                c = rng.randrange(ncnt)
+                out.append(rng.choice([['step', c], ['step', c], ['setc', c, rng.choice([0, 1, 2, 5, -1, 12])], ['addc', c, rng.choice([1, 2, -1, -3, 10])]]))
             elif nsw and r < 0.9 and r >= 0.86:
                 out.append(['setsw', rng.randrange(nsw), rng.random() < 0.5] if rng.random() < 0.85 else ['newsw', rng.randrange(nsw)])
             elif depth > 0 and not f1_only and r < 0.86:
                 sub = lambda: content(depth - 1, params, ids, n=rng.randint(0, 2), allow_def=False, simple_args=simple_args)
-                out.append(['case', ['lit', rng.choice([0, 0, 1, 1, 2, 3, 7]), 'plain'], [sub() for _ in range(rng.randint(1, 3))],
+                out.append(['case', (['cnt', rng.randrange(ncnt)] if (ncnt and rng.random() < 0.3) else ['lit', rng.choice([0, 0, 1, 1, 2, 3, 7]), 'plain']),
+                            [sub() for _ in range(rng.randint(1, 3))],
                             sub() if rng.random() < 0.5 else None])
             else:
                 out.append(word())
@@ -258,6 +286,9 @@ def gen_prog(rng, f1_only=False, max_params=3, delims=True, allow_nested=True, n
         if how.get('kind') == 'newcommand':
             g = True        # \\newcommand is global in plasTeX by design
             how = dict(how, kind=rng.choice(['newcommand', 'renewcommand']))
+        elif not how.get('delims') and len(scopes) == 1 and not f1_only and newcommands and rng.random() < 0.12:
+            # a \\def'd name redefined by \\renewcommand at top level (Context.newcommand may override a Definition)
+            how = dict(how, kind='renewcommand')
         return ['def', g, i, np, default, body(i), dict(how)]
 
     def body(i):
@@ -359,7 +390,7 @@ def in_f1(prog):
                 return False
         elif k == 'cond':
             t = n[1]
-            if not _test_ok(t):
+            if not _test_ok(t, f1=True):
                 return False
             if not in_f1(n[2]) or (n[3] is not None and not in_f1(n[3])):
                 return False
@@ -368,7 +399,9 @@ def in_f1(prog):
     return True
 
 
-def _test_ok(t):
+def _test_ok(t, f1=False):
+    if t[0] == 'switch':
+        return not f1
     if t[0] in ('true', 'false'):
         return True
     if t[0] == 'odd':
@@ -391,7 +424,7 @@ def _opt_ok(o):
 def _fa(n):
     """Spec/MacroPrint.fa_node: argument text"""
     k = n[0]
-    if k in ('word', 'let'):
+    if k in ('word', 'let', 'newsw', 'setsw'):
         return True
     if k == 'group':
         return all(_fa(x) for x in n[1])
@@ -409,7 +442,7 @@ def _fa(n):
 def _fb(np, n, d):
     """Spec/MacroPrint.fb_node: body of a macro with np parameters, nesting depth at most d"""
     k = n[0]
-    if k in ('word', 'let'):
+    if k in ('word', 'let', 'newsw', 'setsw'):
         return True
     if k == 'param':
         return 1 <= n[1] <= np
@@ -428,7 +461,7 @@ def _fb(np, n, d):
 
 def _f2(n):
     k = n[0]
-    if k in ('word', 'let'):
+    if k in ('word', 'let', 'newsw', 'setsw'):
         return True
     if k == 'group':
         return all(_f2(x) for x in n[1])
@@ -458,7 +491,8 @@ def T(c, s):
 
 SOUP = [T(11, 'a'), T(11, 'b'), T(10, ' '), T(1, '{'), T(2, '}'), T(6, '#'), T(12, '1'), T(12, '2'), T(12, '<'), T(12, '='), T(12, '>'),
         T(12, '-'), T(12, '+'), T(0, 'def'), T(0, 'gdef'), T(0, 'zqa'), T(0, 'zqb'), T(0, 'iftrue'), T(0, 'iffalse'), T(0, 'ifnum'),
-        T(0, 'else'), T(0, 'fi'), T(0, 'relax'), T(0, 'ifcase'), T(0, 'or'), T(0, 'newcommand'), T(12, '['), T(12, ']'), T(12, '*'), T(0, 'let'), T(0, 'let'), T(0, 'ifodd'), T(0, 'newif'), T(0, 'newif'), T(0, 'ifzsa'), T(0, 'zsatrue'), T(0, 'zsafalse'), T(0, 'ifzsa')]
+        T(0, 'else'), T(0, 'fi'), T(0, 'relax'), T(0, 'ifcase'), T(0, 'or'), T(0, 'newcommand'), T(12, '['), T(12, ']'), T(12, '*'), T(0, 'let'), T(0, 'let'), T(0, 'ifodd'), T(0, 'newif'), T(0, 'newif'), T(0, 'ifzsa'), T(0, 'zsatrue'), T(0, 'zsafalse'), T(0, 'ifzsa'),
+        T(0, 'value'), T(0, 'stepcounter'), T(0, 'setcounter'), T(0, 'addtocounter'), T(11, 'c')]
 SMALL = [T(11, 'a'), T(10, ' '), T(1, '{'), T(2, '}'), T(6, '#'), T(12, '1'), T(12, '<'), T(0, 'def'), T(0, 'zqa'), T(0, 'iftrue'),
          T(0, 'ifnum'), T(0, 'else'), T(0, 'fi'), T(0, 'relax')]
 
@@ -499,6 +533,25 @@ def gen_soup(rng):
               rng.choice([[T(0, 'relax')], [T(10, ' ')], []])
         alpha = [T(11, 'a'), T(11, 'b'), T(0, 'or'), T(0, 'or'), T(0, 'else'), T(0, 'fi'), T(0, 'iftrue'), T(1, '{'), T(2, '}'), T(0, 'zqa')]
         pre += [rng.choice(alpha) for _ in range(rng.randint(0, 8))]
+    elif r < 0.97:
+        # counters: \\setcounter / \\addtocounter / \\stepcounter / \\value with names a, b, ab in braces or bare, numbers good and bad
+        def nm():
+            return rng.choice([[T(1, '{'), T(11, 'a'), T(2, '}')], [T(1, '{'), T(11, 'a'), T(11, 'b'), T(2, '}')], [T(11, 'b')], [T(1, '{'), T(10, ' '), T(11, 'a'), T(10, ' '), T(2, '}')],
+                               [T(1, '{'), T(0, 'zqa'), T(2, '}')], [T(1, '{'), T(1, '{'), T(11, 'a'), T(2, '}'), T(2, '}')]])
+        def num():
+            return rng.choice([[T(1, '{'), T(12, '2'), T(2, '}')], [T(1, '{'), T(12, '-'), T(12, '1'), T(2, '}')], [T(12, '1')], [T(1, '{'), T(12, '1'), T(12, '2'), T(11, 'a'), T(2, '}')],
+                               [T(1, '{'), T(2, '}')], [T(1, '{'), T(11, 'a'), T(2, '}')]])
+        pre = []
+        for _ in range(rng.randint(1, 4)):
+            k = rng.random()
+            if k < 0.3:
+                pre += [T(0, 'setcounter')] + nm() + num()
+            elif k < 0.55:
+                pre += [T(0, 'addtocounter')] + nm() + num()
+            elif k < 0.75:
+                pre += [T(0, 'stepcounter')] + nm()
+            else:
+                pre += rng.choice([[T(0, 'ifnum')], [T(0, 'ifodd')], [T(0, 'ifcase')], []]) + [T(0, 'value')] + nm() + rng.choice([[T(12, '<'), T(12, '1')], [T(0, 'relax')], []])
     return pre + [rng.choice(SOUP) for _ in range(rng.randint(0, 9))]
 
 
